@@ -293,7 +293,9 @@ func bfs(c *core.Ctx, depth int) {
 			}
 		}
 		frontier = next
-		c.Count(fmt.Sprintf("bfs_new_states_depth_%d", d), len(next))
+		if c.Shard == 0 {
+			c.Count(fmt.Sprintf("bfs_new_states_depth_%d", d), len(next))
+		}
 	}
 }
 
@@ -357,6 +359,8 @@ func checkSessions(c *core.Ctx, sessions [][]int) {
 
 // ---------------------------------------------------------------- level 3: file level
 
+const skippedPath = "only.io/skipped/ref"
+
 func checkFile(c *core.Ctx, seqs [][]int) {
 	dir := pipe.TempDir("c03")
 	defer os.RemoveAll(dir)
@@ -364,12 +368,15 @@ func checkFile(c *core.Ctx, seqs [][]int) {
 	byType := map[string]pipe.Action{}
 	for i, seq := range seqs {
 		name := fmt.Sprintf("k%04d", i)
-		t["p/"+name+"/"+name+".go"] = "package " + name + "\n\ntype T struct{}\n"
+		t["p/"+name+"/"+name+".go"] = "package " + name + "\n\ntype T struct{}\n\ntype U struct{}\n"
 		var imps []string
 		for _, pi := range seq {
 			imps = append(imps, cpaths[pi])
 		}
 		byType["x.io/test/p/"+name+".T"] = pipe.Action{Imports: imps}
+		// a second type refers to one more package and then returns ErrSkip: whether its text is kept is
+		// not C03's business, but the import block must agree with whatever ends up in the file
+		byType["x.io/test/p/"+name+".U"] = pipe.Action{Imports: []string{skippedPath}, Ret: "skip"}
 	}
 	if err := pipe.WriteTree(dir, t); err != nil {
 		c.Internal("%v", err)
@@ -415,6 +422,7 @@ func checkFile(c *core.Ctx, seqs [][]int) {
 			specs[n] = p
 		}
 		used := map[string]bool{}
+		keptSkipped := false
 		ast.Inspect(f, func(n ast.Node) bool {
 			vs, ok := n.(*ast.ValueSpec)
 			if !ok || len(vs.Names) != 1 {
@@ -435,8 +443,13 @@ func checkFile(c *core.Ctx, seqs [][]int) {
 			}
 			q := sel.X.(*ast.Ident).Name
 			used[q] = true
-			if specs[q] != cpaths[seq[idx]] {
-				c.Fail("", cs, "reference %d to %q uses qualifier %q, which the import block binds to %q", idx, cpaths[seq[idx]], q, specs[q])
+			wantPath := cpaths[seq[idx]]
+			if len(parts) > 2 && parts[2] == "U" {
+				wantPath = skippedPath
+				keptSkipped = true
+			}
+			if specs[q] != wantPath {
+				c.Fail("", cs, "reference %d to %q uses qualifier %q, which the import block binds to %q", idx, wantPath, q, specs[q])
 			}
 			return true
 		})
@@ -448,6 +461,9 @@ func checkFile(c *core.Ctx, seqs [][]int) {
 		want := map[string]bool{}
 		for _, pi := range seq {
 			want[cpaths[pi]] = true
+		}
+		if keptSkipped {
+			want[skippedPath] = true
 		}
 		if len(specs) != len(want) {
 			c.Fail("", cs, "import block has %d entries, %d distinct packages were referenced: %v", len(specs), len(want), specs)
@@ -556,7 +572,7 @@ func init() {
 	core.RegisterWorker("c03sess", sessWorker)
 	core.Register(&core.Prop{
 		ID: "C03", Level: "model_checking", Run: run, Replay: replay,
-		Rule: "level 1: every import path of <=3 segments over the segment alphabet (keywords, digit-initial, vN, apis/domain, punctuation, underscore); level 2: breadth-first search over sequences of reference operations (Ref, string ID, PkgExpose, generic instantiation with a nested path, type literal via go/types, a value literal holding same-named types of two same-named packages, own package) on 19 colliding paths (incl. pairs whose common candidate is a keyword or starts with a digit) through the real rawNamer+SnippetWriter, states deduplicated by the tracker's path->name map, the bijection/validity/none-missing/none-unused/stable-name/rendered-text invariants checked after every operation; level 2b: every history of 2 and 3 tracker sessions (8-session alphabet of colliding references) inside one fresh child process, same invariants in every session; level 3: every sequence of <=N paths rendered through the real pipeline and the written file parsed (import specs == qualifiers used, each resolving to the rendered path). Non-trivial = multi-segment paths / sequences >=2; states = distinct tracker maps",
+		Rule: "level 1: every import path of <=3 segments over the segment alphabet (keywords, digit-initial, vN, apis/domain, punctuation, underscore); level 2: breadth-first search over sequences of reference operations (Ref, string ID, PkgExpose, generic instantiation with a nested path, type literal via go/types, a value literal holding same-named types of two same-named packages, own package) on 19 colliding paths (incl. pairs whose common candidate is a keyword or starts with a digit) through the real rawNamer+SnippetWriter, states deduplicated by the tracker's path->name map, the bijection/validity/none-missing/none-unused/stable-name/rendered-text invariants checked after every operation; level 2b: every history of 2 and 3 tracker sessions (8-session alphabet of colliding references) inside one fresh child process, same invariants in every session; level 3: every sequence of <=N paths rendered through the real pipeline (next to a type that refers to one more package and then returns ErrSkip) and the written file parsed (import specs == qualifiers used, each resolving to the rendered path). Non-trivial = multi-segment paths / sequences >=2; states = distinct tracker maps",
 		Assumptions: []string{
 			"'/vendor/' paths are outside the alphabet",
 			"two tracker states with equal path->name maps have equal futures",
